@@ -1,6 +1,6 @@
 (** Correspondence oracle for C12: case record, the model's projection, the
     property restated as a decidable check on the implementation's
-    observation, the known-finding class, and the lemma tying oracle to model. *)
+    observation, and the lemma tying oracle to model. *)
 From GH Require Import Base.Prelude Model.HeightSub Proofs.HeightSubP.
 
 (** what the harness observes of one GetByHeight call at the end of a schedule *)
@@ -42,12 +42,12 @@ Definition obs_of (r : reader) : obs :=
 
 (** the driver runs every thread it does not hold at a gate to quiescence: the
     model state at the end of the schedule must have no enabled step except
-    for readers held before Wait (RStart: never started; RCheck1: held in the
-    datastore read of their first lookup) *)
+    for readers held before WaitFor (RStart: never started; RCheck1: held in
+    the datastore read of their first lookup) *)
 Definition reader_settled (r : reader) : bool :=
   match r_pc r with
   | RStart | RCheck1 | RDone _ => true
-  | RParked false => negb (r_cancel r)
+  | RWait PSelect false => negb (r_cancel r)
   | _ => false
   end.
 
@@ -69,10 +69,8 @@ Definition released (sched : list event) (i : nat) : bool := Nat.leb 2 (rd_count
 Definition hid_mem (x : hid) (l : list hid) : bool :=
   existsb (fun y => (fst x =? fst y) && (snd x =? snd y)) l.
 
-(** the property for one call. [strict] = also the no-lost-wake-up clause:
-    a call that is still blocked when every flush has finished asked for a
-    height that was never appended. *)
-Definition reader_ok (strict : bool) (c : case12) (i : nat) (n : N) (o : obs) : bool :=
+(** the property for one call *)
+Definition reader_ok (c : case12) (i : nat) (n : N) (o : obs) : bool :=
   let app := enqueued (k_sched c) in
   match o with
   | ODone (RFound id) => hid_mem (n, id) app                        (* the header stored for n *)
@@ -80,10 +78,10 @@ Definition reader_ok (strict : bool) (c : case12) (i : nat) (n : N) (o : obs) : 
   | ODone RCtx => cancelled_in (k_sched c) i                        (* only when its context ended *)
   | ODone RZero => n =? 0
   | OBlocked =>
-    negb (released (k_sched c) i) ||
+    negb (released (k_sched c) i) ||                                (* still held by the driver *)
     (negb (cancelled_in (k_sched c) i)                              (* a cancelled context releases *)
      && (k_height c <? n)                                           (* at or below Height(): prompt *)
-     && (negb strict || negb (mem n (map fst app))))                (* stored: must have been woken *)
+     && negb (mem n (map fst app)))                                 (* appended and flushed: no lost wake-up *)
   | OOther => false
   end.
 
@@ -95,32 +93,13 @@ Fixpoint forall_idx {A B} (f : nat -> A -> B -> bool) (i : nat) (l : list A) (m 
   end.
 
 Definition ok12 (c : case12) : bool :=
-  forall_idx (reader_ok true c) 0 (k_ns c) (k_obs c).
+  forall_idx (reader_ok c) 0 (k_ns c) (k_obs c).
 
-(** Known finding F5 (class 1), narrow: the ONLY clause that fails is the
-    no-lost-wake-up clause, and every call for which it fails (a) asked for a
-    height above Height() — a header not contiguous with Head — and (b) in the
-    model registered its subscription after Notify had already announced that
-    height (Notify fell between its first lookup and its registration). *)
-Definition late_reader (s : state) (i : nat) : bool :=
-  match nth_error (st_readers s) i with
-  | Some r => r_late r && parked r
-  | None => false
-  end.
-
-Definition class12 (c : case12) : N :=
-  let s := final c in
-  if ok12 c then 0
-  else if forall_idx (fun i n o => reader_ok true c i n o || (reader_ok false c i n o && late_reader s i)) 0 (k_ns c) (k_obs c)
-  then 1 else 0.
-
-Definition chk12 (c : case12) : bool * bool * N := (agree12 c, ok12 c, class12 c).
+(** no open known-finding class (F5, the lost wake-up, was repaired by 33d75f6) *)
+Definition chk12 (c : case12) : bool * bool * N := (agree12 c, ok12 c, 0).
 
 (** ** the oracle is tied to the model: on the model's own observation of a
-    settled run, every call satisfies the property, or it satisfies everything
-    but the no-lost-wake-up clause and is a late registrant (class 1). Hence
-    [class12 c = 0 -> ok12 c = true], and [class12 c = 1] exactly when the
-    finding's region is hit. *)
+    settled run the decidable property check holds for every call. *)
 Lemma forall_idx_intro {A B} (f : nat -> A -> B -> bool) : forall l m i,
   length l = length m ->
   (forall j a b, nth_error l j = Some a -> nth_error m j = Some b -> f (i + j)%nat a b = true) ->
@@ -146,82 +125,52 @@ Definition model_case (ns : list N) (sched : list event) : case12 :=
   let s := run sched (init None None [] ns []) in
   Case12 ns sched (map obs_of (st_readers s)) (st_hsh s) (hsh_of (st_head s)).
 
-Lemma model_reader_ok ns sched i r :
-  let s := run sched (init None None [] ns []) in
-  let c := model_case ns sched in
-  settled s = true -> nth_error (st_readers s) i = Some r ->
-  reader_ok true c i (r_n r) (obs_of r) = true \/
-  (reader_ok false c i (r_n r) (obs_of r) = true /\ late_reader s i = true).
+Theorem model12_ok ns sched :
+  settled (run sched (init None None [] ns [])) = true -> ok12 (model_case ns sched) = true.
 Proof.
-  intros s c Hset E. subst c. unfold model_case. fold s.
-  unfold settled in Hset. apply andb_prop in Hset as [Hidle Hrs].
-  assert (Hr : reader_settled r = true).
-  { rewrite forallb_forall in Hrs. apply Hrs. eapply nth_error_In; eauto. }
-  unfold obs_of. destruct (r_pc r) as [| | |sig| |x] eqn:Epc.
-  1,2,3,4,5: cbn [reader_ok k_sched k_height].
-  - (* never started *)
-    destruct (released sched i) eqn:Erel; [|left; reflexivity]. exfalso.
-    unfold released in Erel. apply Nat.leb_le in Erel.
-    destruct (run_reader_back sched _ _ _ E) as (r0 & E0 & _).
-    destruct (two_steps_past_lookup sched _ i r0 E0 Erel) as (r' & E' & H1 & _).
-    fold s in E'. congruence.
-  - destruct (released sched i) eqn:Erel; [|left; reflexivity]. exfalso.
-    unfold released in Erel. apply Nat.leb_le in Erel.
-    destruct (run_reader_back sched _ _ _ E) as (r0 & E0 & _).
-    destruct (two_steps_past_lookup sched _ i r0 E0 Erel) as (r' & E' & _ & H2).
-    fold s in E'. congruence.
-  - unfold reader_settled in Hr. rewrite Epc in Hr. discriminate.
-  - unfold reader_settled in Hr. rewrite Epc in Hr. destruct sig; [discriminate|].
-    apply negb_true_iff in Hr.
-    assert (Hnc : cancelled_in sched i = false).
-    { destruct (cancelled_in sched i) eqn:Ec; [|reflexivity].
-      pose proof (cancelled_flag sched _ i r E Ec). congruence. }
-    destruct (no_lost_wakeup_precise None None [] ns [] sched i r wf_empty E Epc) as [A B]. fold s in A, B.
-    assert (Hw : st_w s = WIdle).
-    { unfold writer_idle in Hidle. destruct (st_w s); try discriminate. reflexivity. }
-    destruct (A Hw) as [Hlt _]. apply N.ltb_lt in Hlt.
-    rewrite Hnc, Hlt. cbn.
-    destruct (mem (r_n r) (map fst (enqueued sched))) eqn:Em.
-    + right. split; [apply orb_true_r|]. unfold late_reader. fold s. rewrite E.
-      unfold parked. rewrite Epc. rewrite B; auto. apply mem_In. exact Em.
-    + left. apply orb_true_r.
-  - unfold reader_settled in Hr. rewrite Epc in Hr. discriminate.
-  - left. destruct (returns_only_when_due None None [] ns [] sched i r x wf_empty E Epc) as [_ H].
-    destruct x; cbn [reader_ok k_sched k_height].
-    + apply hid_mem_In. exact H.
-    + apply N.leb_le. exact H.
-    + exact H.
-    + apply N.eqb_eq. exact H.
-Qed.
-
-Theorem model12_class ns sched :
-  let s := run sched (init None None [] ns []) in
-  let c := model_case ns sched in
-  settled s = true ->
-  forall_idx (fun i n o => reader_ok true c i n o || (reader_ok false c i n o && late_reader s i)) 0
-             (k_ns c) (k_obs c) = true.
-Proof.
-  intros s c Hset. apply forall_idx_intro.
-  - cbn. rewrite map_length. unfold s. rewrite run_length. cbn. rewrite map_length. reflexivity.
-  - intros j n o Hn Ho. cbn in Hn, Ho. rewrite nth_error_map in Ho.
-    destruct (nth_error (st_readers (run sched (init None None [] ns []))) j) as [r|] eqn:E; [|discriminate].
-    cbn in Ho. injection Ho as <-.
+  intros Hset. set (s := run sched (init None None [] ns [])) in *.
+  unfold ok12. apply forall_idx_intro.
+  - cbn. rewrite map_length. fold s. unfold s. rewrite run_length. cbn. rewrite map_length. reflexivity.
+  - intros j n o Hn Ho. cbn in Hn, Ho. fold s in Ho. rewrite nth_error_map in Ho.
+    destruct (nth_error (st_readers s) j) as [r|] eqn:E; [|discriminate].
+    cbn in Ho. injection Ho as <-. cbn [Nat.add].
     destruct (run_reader_back sched _ _ _ E) as (r0 & E0 & Hn0 & _).
     apply init_reader in E0 as [E0 _]. assert (n = r_n r) by congruence. subst n.
-    cbn [Nat.add].
-    destruct (model_reader_ok ns sched j r Hset E) as [H|[H1 H2]]; subst c s.
-    + rewrite H. reflexivity.
-    + rewrite H1, H2. apply orb_true_r.
-Qed.
-
-(** the model's own observation satisfies the property outside the known-finding class *)
-Theorem model12_ok ns sched :
-  settled (run sched (init None None [] ns [])) = true ->
-  class12 (model_case ns sched) = 0 -> ok12 (model_case ns sched) = true.
-Proof.
-  intros Hset. unfold class12. destruct (ok12 (model_case ns sched)); [reflexivity|].
-  change (final (model_case ns sched)) with (run sched (init None None [] ns [])).
-  rewrite (model12_class ns sched Hset). discriminate.
+    unfold settled in Hset. apply andb_prop in Hset as [Hidle Hrs].
+    assert (Hr : reader_settled r = true).
+    { rewrite forallb_forall in Hrs. apply Hrs. eapply nth_error_In; eauto. }
+    assert (Hnot2 : r_pc r = RStart \/ r_pc r = RCheck1 -> released sched j = false).
+    { intros Hcase. destruct (released sched j) eqn:Erel; [|reflexivity]. exfalso.
+      unfold released in Erel. apply Nat.leb_le in Erel.
+      destruct (run_reader_back sched _ _ _ E) as (r1 & E1 & _).
+      destruct (two_steps_past_lookup sched _ j r1 E1 Erel) as (r' & E' & H1 & H2).
+      fold s in E'. rewrite E in E'. injection E' as <-. destruct Hcase; congruence. }
+    unfold obs_of, model_case. fold s. cbn [reader_ok k_sched k_height].
+    destruct (r_pc r) as [| | |ph sig| |x] eqn:Epc.
+    + cbn [reader_ok k_sched]. rewrite Hnot2; auto.
+    + cbn [reader_ok k_sched]. rewrite Hnot2; auto.
+    + unfold reader_settled in Hr. rewrite Epc in Hr. discriminate.
+    + cbn [reader_ok k_sched k_height]. unfold reader_settled in Hr. rewrite Epc in Hr.
+      destruct ph; try discriminate. destruct sig; [discriminate|]. apply negb_true_iff in Hr.
+      assert (Hnc : cancelled_in sched j = false).
+      { destruct (cancelled_in sched j) eqn:Ec; [|reflexivity].
+        pose proof (cancelled_flag sched _ j r E Ec). congruence. }
+      assert (Hpk : parked r = true) by (unfold parked; rewrite Epc; reflexivity).
+      assert (Hw : st_w s = WIdle).
+      { unfold writer_idle in Hidle. destruct (st_w s); try discriminate. reflexivity. }
+      destruct (waiter_above_height None None [] ns [] sched j r wf_empty E Hpk Hw) as [Hlt _]. fold s in Hlt.
+      apply N.ltb_lt in Hlt. rewrite Hnc, Hlt. cbn.
+      destruct (mem (r_n r) (map fst (enqueued sched))) eqn:Em; [|apply orb_true_r].
+      exfalso. apply mem_In in Em.
+      pose proof (no_lost_wakeup None None [] ns [] sched j r wf_empty E Hidle Em) as Hb.
+      unfold blocked in Hb. rewrite Epc in Hb. discriminate.
+    + unfold reader_settled in Hr. rewrite Epc in Hr. discriminate.
+    + destruct (returns_only_when_due None None [] ns [] sched j r x wf_empty E Epc) as [_ H].
+      destruct x; cbn [reader_ok k_sched k_height].
+      * apply hid_mem_In. exact H.
+      * apply N.leb_le. exact H.
+      * exact H.
+      * apply N.eqb_eq. exact H.
 Qed.
 
 (** and it always agrees with itself *)
